@@ -52,7 +52,7 @@ def correspondence(ctx, lists, per):
 def oracle(ctx, prop, n, per, sub="oracle"):
     d = os.path.join(ctx.rundir, sub)
     os.makedirs(d, exist_ok=True)
-    rc, out = C.sh([os.path.join(C.BIN, "c08"), "oracle", "-prop", prop, "-out", d, "-n", str(n), "-per", str(per),
+    rc, out = C.sh([os.path.join(C.BIN, "c08"), "oracle", "-prop", prop, "-out", d, "-n", str(n), "-per", str(per), "-gen", str(max(1, n // 4)),
                     "-corpus", os.path.join(C.VERIF, "corpus", prop)], timeout=6000)
     ctx.log("oracle", out[-2000:])
     if rc != 0:
@@ -67,7 +67,7 @@ def oracle(ctx, prop, n, per, sub="oracle"):
 def make_search(prop):
     def search(ctx, factor):
         before = len(ctx.fails)
-        oracle(ctx, prop, ctx.scale(150, 1500) * factor, 40, "search")
+        oracle(ctx, prop, ctx.scale(300, 3000) * factor, 40, "search")
         found = ctx.fails[before:]
         del ctx.fails[before:]
         return found
@@ -80,8 +80,8 @@ def run(ctx, prop, props, obligs):
     ctx.assumptions += ASSUMPTIONS
     if not build(ctx, props, obligs):
         return
-    correspondence(ctx, ctx.scale(120, 1500), ctx.scale(60, 0))
-    summ = oracle(ctx, prop, ctx.scale(150, 1500), ctx.scale(25, 0))
+    correspondence(ctx, ctx.scale(300, 3000), ctx.scale(80, 0))
+    summ = oracle(ctx, prop, ctx.scale(300, 3000), ctx.scale(30, 0))
     ctx.add_summary(summ, "MergeFilesWith oracle (%s)" % prop)
     if ctx.tier == "thorough":
         ctx.cov["forbidden_vernacular"] = C.forbidden_vernacular()
